@@ -218,6 +218,18 @@ func c20Decode(c *core.Ctx, o *c20Obs) {
 		}
 		h.Write(in)
 	}
+	// map entries whose inner lengths reach beyond the entry (not beyond the
+	// message): the allocation must still be bounded by the input
+	ns := []int{1, 40}
+	if c.Index%32 == 5 {
+		ns = append(ns, 1500+r.Intn(1500)) // large enough to pass the (generous) bound
+	}
+	for _, n := range ns {
+		in := codec.OverlapStat(r, n)
+		ob := codec.RenameObs{Obs: o, From: codec.SigUnmAlloc, To: "vt-map-entry-overrun"}
+		codec.CheckUnmarshal(ob, false, in)
+		o.Count("inputs_with_overrunning_map_entries", 1)
+	}
 	// valid but non-canonical encodings of known values (field order, repeated
 	// scalars, explicit defaults, map entries without key or value or with the
 	// value first, repeated map keys, an embedded stat split in two): every
